@@ -230,7 +230,7 @@ def c17(tier, repo=None, only_cases=None):
         mc("n2-all", t_consts())
         mc("n2-liveness", t_consts(MaxCalls=2, MaxChunks=1, Graphs=[True]), props=["Terminates"], spec=True)
         mc("n3-faults", t_consts(MaxCalls=3, MaxTools=3, MaxChunks=1, Behs=["ok", "fail", "panic"], Kinds=["inv", "str"], Handlers=["none", "ok"], MaxFaulty=2))
-        for bug in ("reverse", "sharedidx", "noinlinewait", "dropempty", "donebeforeerr"):
+        for bug in ("reverse", "sharedidx", "noinlinewait", "dropempty", "donebeforeerr", "erriseof", "cancelonreturn"):
             mc("n2-bug-" + bug, t_consts(Bug=bug), expect_violation="RuleOK")
         two = dict(Consumers=2, Modes=["stream"], Graphs=[True], Behs=["ok", "empty", "failmid"], Handlers=["none", "ok"])
         mc("n2-two-consumers", t_consts(**two))
@@ -281,6 +281,7 @@ def c17(tier, repo=None, only_cases=None):
             c["shape"] = ""
             if c["graph"] and rnd.random() < (0.6 if c["mode"] == "stream" else 0.2):
                 c["shape"] = ("branch", "fanout", "callback")[rnd.randrange(3)]
+        c.setdefault("eofwrap", rnd.random() < 0.5)  # a stream failing in the middle fails with an error that wraps io.EOF
         if "deep" not in c:
             # panicking tools panic from a deep recursion in a fraction of the cases: the long unwinding widens the window between
             # the panic and the moment its error is stored (needs the panicking call to finish last: the schedules cover that)
